@@ -4,10 +4,12 @@ C17 line-protocol driver:  `lake env lean --run Sc3Verif/C17/Driver.lean < ops`
   reset                               new case (prints `reset`)
   server CLIENT LOGINS BUFFERS LAT    fresh Server (LAT = `N` or `p/q`); prints `server ok`
   <op line>                           same op language as harness/impl/c17.py; prints
-                                      `STATUS | PKT ;; PKT`   (PKT = `M <msg>` | `B <time> <msg> ;| <msg>`)
+                                      `STATUS | PKT ;; PKT`   (PKT = `M <msg>` | `B <time> <msg> ;| <msg>`);
+                                      ` !G` is appended if `Spec.grammarOk` rejects a message of the line
   eof                                 prints `eof |`
 -/
 import Sc3Verif.C17.Model
+import Sc3Verif.C17.Spec
 import Sc3Verif.C17.GenActions
 open Sc3Verif.C17
 open Sc3Verif.C16 (Opts)
@@ -319,7 +321,10 @@ partial def loop (h : IO.FS.Stream) (out : IO.FS.Stream) (st : Option Client) : 
       let (cl', s, ps) := cl.step op
       let status := fmtStatus s ++
         (if bufAllocOp l && !skipping then " a" ++ blocksStr cl' else "")
-      out.putStrLn (rstrip (status ++ " | " ++ " ;; ".intercalate (ps.map fmtPacket)))
+      -- cross-check of the Lean transcription of the command reference on every message sent
+      let bad := (collect ps).any fun m => !grammarOk m
+      out.putStrLn (rstrip (status ++ " | " ++ " ;; ".intercalate (ps.map fmtPacket))
+        ++ (if bad then " !G" else ""))
       loop h out (some cl')
 
 def main : IO Unit := do
